@@ -108,3 +108,44 @@ pub fn sorted_moves(ms: &[Move]) -> String {
     v.sort();
     v.join(" ")
 }
+
+// ---------------------------------------------------------------- FEN / UCI text written independently of the engine
+pub fn fen_of(b: &Board) -> String {
+    let m = crate::refchess::mailbox(b).expect("consistent board");
+    let mut s = String::new();
+    for r in (0..8).rev() {
+        let mut empty = 0;
+        for f in 0..8 {
+            match m[r * 8 + f] {
+                None => empty += 1,
+                Some((c, p)) => {
+                    if empty > 0 { s += &empty.to_string(); empty = 0; }
+                    let ch = match p { Piece::Pawn => 'p', Piece::Knight => 'n', Piece::Bishop => 'b', Piece::Rook => 'r', Piece::Queen => 'q', Piece::King => 'k' };
+                    s.push(if c == Color::White { ch.to_ascii_uppercase() } else { ch });
+                }
+            }
+        }
+        if empty > 0 { s += &empty.to_string(); }
+        if r > 0 { s.push('/'); }
+    }
+    s.push(' ');
+    s.push(if b.active_color == Color::White { 'w' } else { 'b' });
+    s.push(' ');
+    let (wk, wq) = b.castling_ability(Color::White);
+    let (bk, bq) = b.castling_ability(Color::Black);
+    if !(wk || wq || bk || bq) { s.push('-'); } else {
+        if wk { s.push('K'); } if wq { s.push('Q'); } if bk { s.push('k'); } if bq { s.push('q'); }
+    }
+    s.push(' ');
+    match b.en_passant_target { None => s.push('-'), Some(e) => { s.push((b'a' + e % 8) as char); s.push((b'1' + e / 8) as char); } }
+    s += &format!(" {} {}", b.halfmove_clock, b.fullmove_counter);
+    s
+}
+
+pub fn uci_text(m: &Move) -> String {
+    let sq = |s: u8| format!("{}{}", (b'a' + s % 8) as char, (b'1' + s / 8) as char);
+    let promo = if m.move_type == MoveType::Promotion {
+        match m.piece_type { Piece::Knight => "n", Piece::Bishop => "b", Piece::Rook => "r", Piece::Queen => "q", _ => "" }
+    } else { "" };
+    format!("{}{}{}", sq(m.from), sq(m.to), promo)
+}
